@@ -202,6 +202,7 @@ func checkC11(c *core.Ctx) {
 		checkPairedLinks(c, r10, "tcpassembly")
 		checkPairedLinks(c, r10, "reassembly")
 	}
+	releaseCountsPages(c, c.Rule("R11.13", "T", "package reassembly keeps its page counter in step: pages taken by convertToPages are added, pages given back by release are subtracted"))
 	r7 := c.Rule("R11.7", "T", "free-list discipline: a connection is pushed on the pool's free list only when it was found in the live map, or only from the once-per-connection close function")
 	for _, pkg := range []string{"reassembly", "tcpassembly"} {
 		lp := &lifePkg{pkg: pkg, closers: map[*ssa.Function]bool{}, notClose: map[string]int{}}
@@ -872,4 +873,107 @@ func unlockBetween(fn *ssa.Function, a, b ssa.Instruction) bool {
 		}
 	})
 	return found
+}
+
+// releaseCountsPages (R11.13): in the reassembly package a page goes back to
+// the cache through release(), which returns the number of pages it gave
+// back; the caller owns a page counter (halfconnection.pages) that the limit
+// test reads.  Every result of release() must be subtracted from a `pages`
+// field: a release whose result is dropped leaves the counter above the pages
+// really held, and the per-connection limit then forces data out although the
+// configured number of pages is not in use.
+func releaseCountsPages(c *core.Ctx, r *core.Rule) {
+	p := c.P
+	n := 0
+	for _, fn := range pkgFunctions(p, "reassembly") {
+		k := 0
+		core.Instrs(fn, func(ins ssa.Instruction) {
+			call, ok := ins.(*ssa.Call)
+			if !ok {
+				return
+			}
+			name := ""
+			if call.Call.IsInvoke() {
+				name = call.Call.Method.Name()
+			} else if f := call.Call.StaticCallee(); f != nil && f.Signature.Recv() != nil {
+				name = f.Name()
+			}
+			if name != "release" {
+				return
+			}
+			if bt, ok := call.Type().Underlying().(*types.Basic); !ok || bt.Info()&types.IsInteger == 0 {
+				return
+			}
+			n++
+			k++
+			counted := false
+			for _, ref := range *call.Referrers() {
+				bo, ok := ref.(*ssa.BinOp)
+				if !ok || bo.Op != token.SUB || bo.Y != ssa.Value(call) {
+					continue
+				}
+				for _, r2 := range *bo.Referrers() {
+					if st, ok := r2.(*ssa.Store); ok {
+						if fa, ok := st.Addr.(*ssa.FieldAddr); ok && core.FieldOfAddr(fa).Name() == "pages" {
+							counted = true
+						}
+					}
+				}
+			}
+			key := fmt.Sprintf("%s/release-counted#%d", core.FnKey(fn), k)
+			r.Check(counted, key, p.InstrPos(ins), "the number of released pages is subtracted from a pages counter", "the number of pages released here is not subtracted from the half-connection's page counter: the counter stays above the pages really held, so the per-connection page limit is reached — and data is forced out and reported as skipped — while fewer pages than configured are in use")
+		})
+	}
+	c.Counts["release_calls"] = n
+	if n < 3 {
+		r.Missing("reassembly/release calls", fmt.Sprintf("only %d found", n))
+	}
+	// the acquisition side: the number of pages convertToPages reports is added to a pages counter
+	m := 0
+	for _, fn := range pkgFunctions(p, "reassembly") {
+		k := 0
+		core.Instrs(fn, func(ins ssa.Instruction) {
+			call, ok := ins.(*ssa.Call)
+			if !ok {
+				return
+			}
+			name := ""
+			if call.Call.IsInvoke() {
+				name = call.Call.Method.Name()
+			} else if f := call.Call.StaticCallee(); f != nil && f.Signature.Recv() != nil {
+				name = f.Name()
+			}
+			if name != "convertToPages" {
+				return
+			}
+			m++
+			k++
+			counted := false
+			for _, ref := range *call.Referrers() {
+				ex, ok := ref.(*ssa.Extract)
+				if !ok || ex.Index != 2 {
+					continue
+				}
+				for _, r2 := range *ex.Referrers() {
+					bo, ok := r2.(*ssa.BinOp)
+					if !ok || bo.Op != token.ADD {
+						continue
+					}
+					for _, r3 := range *bo.Referrers() {
+						if st, ok := r3.(*ssa.Store); ok {
+							if fa, ok := st.Addr.(*ssa.FieldAddr); ok && core.FieldOfAddr(fa).Name() == "pages" {
+								counted = true
+							}
+						}
+					}
+				}
+			}
+			key := fmt.Sprintf("%s/converted-pages-counted#%d", core.FnKey(fn), k)
+			r.Check(counted, key, p.InstrPos(ins), "the number of pages taken is added to a pages counter", "the number of pages this conversion takes from the cache is not added to the half-connection's page counter (it is only accumulated locally): the pages are later subtracted when they are released, so the counter the page limit is tested against drifts below the pages really held and more pages than MaxBufferedPagesPerConnection can be queued")
+		})
+	}
+	c.Counts["convertToPages_calls"] = m
+	if m < 2 {
+		r.Missing("reassembly/convertToPages calls", fmt.Sprintf("only %d found", m))
+	}
 }
